@@ -238,7 +238,8 @@ impl Run {
         if self.recheck.is_empty() || std::env::var("VERIF_NO_RECHECK").is_ok() {
             return;
         }
-        let pool = Pool::new(&self.reporter.prop);
+        let mut pool = Pool::new(&self.reporter.prop);
+        pool.timeout_ms = 900_000;
         let kept: Vec<(Value, String)> = std::mem::take(&mut self.recheck);
         let cases: Vec<Value> = kept.iter().map(|(c, _)| c.clone()).collect();
         let mut second: Vec<Option<String>> = vec![None; kept.len()];
